@@ -1296,7 +1296,21 @@ func (e *beaconEngine) finalChecks(healAt time.Time, gap uint64, res *RunResult)
 					continue
 				}
 				h := heads[n.addr]
-				if h+1 < due {
+				// the round that is due right now may still be in the making; once its time is further back than one
+				// catch-up step, the clock differences of the run and some slack, it has to be there as well
+				need := due - 1
+				slack := c + 300*time.Millisecond
+				for _, ms := range sc.SkewMs {
+					if d := time.Duration(ms) * time.Millisecond; d > 0 && d+c+300*time.Millisecond > slack {
+						slack = d + c + 300*time.Millisecond
+					} else if d < 0 && -d+c+300*time.Millisecond > slack {
+						slack = -d + c + 300*time.Millisecond
+					}
+				}
+				if dueAt := time.Unix(refTimeOfRound(due, sc.PeriodS, e.gen.Unix()), 0); due >= 1 && time.Since(dueAt) > slack {
+					need = due
+				}
+				if h < need {
 					facts := "behind"
 					if len(live) == e.liveThreshold() {
 						// no spare member: the chain only moves when every live honest member contributes
